@@ -81,7 +81,7 @@ class PW:
                                                         And(bit(v, T.w_new(c, v, s)), Not(bit(c, T.w_new(c, v, s))),
                                                             Not(And(T.isatom(T.w_new(c, v, s)), T.idx(T.w_new(c, v, s)) >= s)))),
                                      patterns=[T.newfrom(c, v, s)])),
-            # size of a set with one new member (Finset.card_insert_of_notMem)
+            # size of a set with one new member (lemmas/BitsBin.lean: card_insert; Finset.card_insert_of_notMem at the level of the bits)
             ('card.insert', ForAll([c, x], Implies(And(c >= 0, x >= 0, Not(bit(c, x))), T.card(bor(c, atomv(x))) == T.card(c) + 1),
                                    patterns=[T.card(bor(c, atomv(x)))])),
         ]
@@ -241,7 +241,7 @@ def _order_lemmas():
 
 
 register(Unit('lemma.powerset.order', None, None, _order_lemmas,
-              assumptions=['BITS theory, definitions of wf / lexb (contracts/bitsets_powerset.py)', 'card(c + {x}) = card(c) + 1 for x not in c (Finset.card_insert_of_notMem)']))
+              assumptions=['BITS theory, definitions of wf / lexb (contracts/bitsets_powerset.py)', 'card(c + {x}) = card(c) + 1 for x not in c (Lean: lemmas/BitsBin.lean card_insert, i.e. Finset.card_insert_of_notMem at the level of the bits)']))
 
 
 # ---------------------------------------------------------------------------------------------------------------------
@@ -549,7 +549,7 @@ if COMBOS:
     register(Unit('bitsets.combos.shortlex', COMBOS, 'shortlex', _shortlex_unit(),
                   assumptions=['requires other = a list of atoms with strictly increasing positions, none of them in start (what MemberBits.powerset passes: unit bitsets.MemberBits.powerset)',
                                'collections.deque is FIFO (array model head/tail); list slicing other[1:] = the suffix',
-                               'card(c + {x}) = card(c) + 1 for x not in c (Finset.card_insert_of_notMem)',
+                               'card(c + {x}) = card(c) + 1 for x not in c (Lean: lemmas/BitsBin.lean card_insert, i.e. Finset.card_insert_of_notMem at the level of the bits)',
                                'siblings / cousins / card instances: lemma.powerset.order', 'termination not proved'],
                   linkage=[(LINK + 'combos.shortlex', None)], max_paths=600))
 
